@@ -151,32 +151,55 @@ def run(fx, chk, tier):
             if f["name"] in want:
                 src = [prod.get(m["name"]) for m, _ in hirq.walk(f["e"]) if m.get("k") == "path" and m.get("res") == "local"]
                 chk.require(want[f["name"]] in src, "R-FOOT", "Mp4Sample." + f["name"], "from " + want[f["name"]], "Mp4Sample.%s is not taken from %s (sources %s)" % (f["name"], want[f["name"]], src), site_of(frs, f["e"].get("line")))
-        # bytes: buffer local filled by read_exact; seek argument derived from sample_offset
-        b = body_of(frs)
-        seeks = [(bb, t) for bb, t in b.calls() if (t["callee"].get("path") or "").endswith("Seek::seek")]
-        reads = [(bb, t) for bb, t in b.calls() if (t["callee"].get("path") or "").endswith("Read::read_exact")]
-        import c07
-
-        def from_call(op, callee_name):
-            """does the operand derive (through assignments, conversions and helper calls) from the result of a call to
-            Mp4Track::<callee_name> in this function?"""
-            pl = op_place(op)
-            if pl is None:
-                return False
-            for bb, t in b.calls():
-                if (callee_path(t["callee"]) or "").endswith("Mp4Track::" + callee_name) and t.get("dest"):
-                    if c07.derives_from(b, pl["l"], t["dest"]["l"]):
-                        return True
-            return False
-        ok = len(seeks) == 1 and len(reads) == 1 and from_call(seeks[0][1]["args"][1], "sample_offset") and b.dominates(seeks[0][0], reads[0][0])
-        bf = [f for f in lit["fields"] if f["name"] == "bytes"]
-        buf_names = {m["name"] for m, _ in hirq.walk(bf[0]["e"]) if m.get("k") == "path" and m.get("res") == "local"} if bf else set()
-        rbuf = b.op_str(reads[0][1]["args"][1]) if reads else ""
-        ok = ok and any(nm in rbuf for nm in buf_names)
-        allocs = [t for bb, t in b.calls() if (t["callee"].get("path") or "").endswith("vec::from_elem")]
-        ok = ok and len(allocs) == 1 and from_call(allocs[0]["args"][1], "sample_size")
-        # buffer length = looked-up size
-        chk.require(ok, "R-FOOT", "Mp4Sample.bytes", "buffer filled by read_exact after seek(Start(sample_offset))", "the returned bytes are not the buffer read at the looked-up offset", site_of(frs))
+        # bytes: over the effect traces of Mp4Track::read_sample (private helpers spliced in): the only stream operations
+        # are seek(SeekFrom::Start(<value from sample_offset>)) then read_exact(<buffer of <value from sample_size> bytes>),
+        # and the returned bytes are that buffer
+        import etrace
+        T = etrace.Tracer(fx, keep=lambda e: e["k"] in ("io", "end") or (e["k"] == "agg" and e["adt"] == "Mp4Sample"))
+        trs = T.ok_traces(frs["id"]) or []
+        ok = False
+        why = "no success path constructs a sample"
+        for tr in trs:
+            lit_ = [e for e in tr if e["k"] == "agg" and e["adt"] == "Mp4Sample"]
+            if not lit_:
+                continue
+            ios = [e for e in tr if e["k"] == "io"]
+            sig = [e["op"] for e in ios]
+            if sig != ["seek", "read_exact"]:
+                ok, why = False, "stream operations on a success path are %s (expected seek, read_exact)" % sig
+                break
+            tgt = ios[0]["args"][1]
+            buf = ios[1]["args"][1]
+            by = lit_[-1]["fields"].get("bytes", "")
+            def site_ids(text, name):
+                """call-site identities `@id` of calls to `name(` in a canonical rendering"""
+                out, i = [], 0
+                while True:
+                    j = text.find(name + "(", i)
+                    if j < 0:
+                        return out
+                    depth, k = 0, j + len(name)
+                    while k < len(text):
+                        if text[k] == "(":
+                            depth += 1
+                        elif text[k] == ")":
+                            depth -= 1
+                            if depth == 0:
+                                break
+                        k += 1
+                    m_ = __import__("re").match(r"@[\w.]+", text[k + 1:])
+                    if m_:
+                        out.append(m_.group(0))
+                    i = j + 1
+            ids = set(site_ids(buf, "from_elem")) | set(site_ids(buf, "with_capacity"))
+            good = (tgt.startswith("SeekFrom::Start(") and "Mp4Track::sample_offset(" in tgt and bool(ids)
+                    and any(i_ in site_ids(by, "from_elem") + site_ids(by, "with_capacity") for i_ in ids) and "Mp4Track::sample_size(" in by)
+            if not good:
+                ok, why = False, "seek target %s / buffer %s / returned bytes %s" % (tgt[:80], buf[:80], by[:80])
+                break
+            ok = True
+        chk.require(ok, "R-FOOT", "Mp4Sample.bytes", "buffer of sample_size bytes filled by read_exact after seek(Start(sample_offset)), returned as the sample's bytes",
+                    "the returned bytes are not the buffer read at the looked-up offset: %s" % why, site_of(frs))
     return chk.finish(
         "other",
         "Absent-table defaults, the count source and lower-bound table footprints of the non-fragmented lookup are checked on MIR/HIR. "
